@@ -23,7 +23,8 @@ ID = "C01"
 RULE = (
     "seeded sampler configurations: Metropolis, Gibbs, PCA, Hamiltonian (scalar/vector/matrix mass, bounded/unbounded) and "
     "ensemble samplers on correlated Gaussian, banana, product-Gaussian, gamma and truncated-normal targets; 1-5 dimensions; "
-    "proposal widths 0.1x..10x the target scale; starts in the bulk and in the tails; temperatures 1 / 2.5 / 7; every "
+    "proposal widths 0.1x..10x the target scale; starts in the bulk and in the tails; temperatures 1 / 2.5 / 7; tempering ladders sorted and "
+    "unsorted; bounded samplers are also watched for evaluations outside their bounds (before and after a mid-run save / load); every "
     "accept/reject decision of 2e3-4e4 steps per configuration is one monitored event; non-trivial = configuration with "
     ">= 500 decoded downhill decisions (ledger) or >= 2000 weighted samples (distribution); distinct = distinct configuration"
 )
